@@ -911,12 +911,12 @@ var chartPairsQuick = map[string]string{
 	"Chart.yaml#dep.name":            "empty",
 	"Chart.yaml#dep.version":         "missing badrange star unsat",
 	"Chart.yaml#dep.repository":      "missing",
-	"Chart.yaml#dep.condition":       "str empty long missing dots trailing-dot into-scalar into-list nonbool table",
+	"Chart.yaml#dep.condition":       "str empty missing trailing-dot into-scalar into-list nonbool",
 	"Chart.yaml#dep.tags":            "null listnull missing-tag missing",
 	"Chart.yaml#dep.alias":           "alias alias-same alias-parent alias-global",
 	"Chart.yaml#dep.enabled":         "enabled-false",
-	"Chart.yaml#dep.import-values":   "missing null emptylist item-null item-int item-list child-int parent-missing dots child-scalar-path child-into-scalar parent-scalar-path parent-under-scalar parent-is-sub str-missing-export many",
-	"values.yaml#sub":                "null int missing enabled-null enabled-str enabled-map enabled-false data-scalar data-null global-scalar exports-scalar exports-exp-scalar exports-null",
+	"Chart.yaml#dep.import-values":   "missing null item-null item-list child-int parent-missing dots child-scalar-path parent-scalar-path parent-under-scalar str-missing-export many",
+	"values.yaml#sub":                "null missing enabled-null enabled-str enabled-false data-scalar data-null global-scalar exports-scalar exports-null",
 	"values.yaml#tags":               "null scalar t1-str t1-false missing",
 	"values.yaml#global":             "null scalar g-map missing",
 	"values.yaml#x":                  "null map missing",
@@ -924,11 +924,11 @@ var chartPairsQuick = map[string]string{
 	"values.yaml#imported":           "*",
 	"values.yaml#tail":               "exports Values-key",
 	"values.yaml:":                   "empty null list multi-doc",
-	"values.schema.json:":            "empty null false ref-self bad-regex absent",
+	"values.schema.json:":            "empty false ref-self absent",
 	"values.schema.json#x":           "type-null false not-self",
 	"values.schema.json#sub":         "*",
 	"values.schema.json#required":    "null missingprop",
-	"templates/cm.yaml#x":            "unclosed nil-deref fail toyaml-root include-loop template-loop tpl-loop tpl-nil subcharts-walk",
+	"templates/cm.yaml#x":            "unclosed nil-deref toyaml-root include-loop template-loop tpl-loop tpl-nil",
 	"templates/cm.yaml#t":            "tpl-missing tpl-of-map",
 	"templates/cm.yaml#l":            "lines-dir",
 	"templates/cm.yaml#head":         "kind-null kind-list leading-doc-sep empty",
@@ -939,7 +939,7 @@ var chartPairsQuick = map[string]string{
 	"templates/cm.yaml:":             "empty only-define redefine-helper absent",
 	"templates/_helpers.tpl:":        "empty self-include define-fails define-tpl-self absent",
 	"files/data.txt:":                "empty only-newline absent",
-	"charts/sub/Chart.yaml#name":     "mismatch missing parent global dotted",
+	"charts/sub/Chart.yaml#name":     "mismatch missing global",
 	"charts/sub/Chart.yaml#version":  "mismatch missing",
 	"charts/sub/Chart.yaml#type":     "*",
 	"charts/sub/Chart.yaml#tail":     "*",
@@ -949,7 +949,7 @@ var chartPairsQuick = map[string]string{
 	"charts/sub/values.yaml#exports": "null scalar exp-scalar exp-null missing",
 	"charts/sub/values.yaml#global":  "scalar null g-map",
 	"charts/sub/values.yaml:":        "empty null absent",
-	"@uservalues:":                   "null sub-int sub-null sub-enabled-str sub-enabled-false sub-global-int sub-data-int sub-exports-int sub-exports-exp-int global-int global-null global-g-map tags-null tags-t1-str tags-t1-false x-null imported-int tplstr-self",
+	"@uservalues:":                   "null sub-int sub-null sub-enabled-str sub-enabled-false sub-global-int sub-exports-int global-int global-null global-g-map tags-null tags-t1-false imported-int tplstr-self",
 }
 
 // chartPairs selects the (larger) set of deviations combined pairwise in the
@@ -1016,12 +1016,12 @@ var chartPairs = map[string]string{
 // computation (parent values x subchart values x user values x dependency
 // declaration).
 var chartTriples = map[string]string{
-	"Chart.yaml#dep.condition":       "str empty missing dots trailing-dot into-scalar into-list nonbool table",
-	"Chart.yaml#dep.tags":            "null listnull missing-tag missing",
+	"Chart.yaml#dep.condition":       "str empty long missing dots trailing-dot into-scalar into-list nonbool table",
+	"Chart.yaml#dep.tags":            "null listnull emptylist missing-tag missing",
 	"Chart.yaml#dep.alias":           "alias alias-parent alias-global",
-	"Chart.yaml#dep.import-values":   "missing null emptylist item-null item-list dots child-scalar-path child-into-scalar parent-scalar-path parent-under-scalar parent-is-sub str-missing-export str-dot empty-strings",
+	"Chart.yaml#dep.import-values":   "missing null emptylist item-null item-int item-list child-int parent-missing dots child-scalar-path child-into-scalar parent-scalar-path parent-under-scalar parent-is-sub str-missing-export str-dot empty-strings many",
 	"Chart.yaml#tail":                "dep-second-same-name",
-	"values.yaml#sub":                "null int missing enabled-null enabled-str enabled-map enabled-false data-scalar data-null global-scalar exports-scalar exports-exp-scalar exports-null",
+	"values.yaml#sub":                "null int missing enabled-null enabled-str enabled-int enabled-map enabled-false data-scalar data-null data-list global-scalar exports-scalar exports-exp-scalar exports-null",
 	"values.yaml#tags":               "null scalar t1-str t1-false missing",
 	"values.yaml#global":             "null scalar g-map missing",
 	"values.yaml#imported":           "*",
@@ -1029,10 +1029,10 @@ var chartTriples = map[string]string{
 	"charts/sub/Chart.yaml#type":     "library",
 	"charts/sub/values.yaml#enabled": "str null false missing",
 	"charts/sub/values.yaml#data":    "scalar null missing",
-	"charts/sub/values.yaml#exports": "null scalar exp-scalar exp-null missing",
+	"charts/sub/values.yaml#exports": "null scalar list exp-scalar exp-null exp-list missing",
 	"charts/sub/values.yaml#global":  "scalar null g-map",
 	"charts/sub/values.yaml:":        "null absent",
-	"@uservalues:":                   "null sub-int sub-null sub-enabled-str sub-enabled-false sub-global-int sub-data-int sub-exports-int global-int global-null global-g-map tags-null tags-t1-str tags-t1-false imported-int",
+	"@uservalues:":                   "null sub-int sub-null sub-enabled-str sub-enabled-false sub-global-int sub-data-int sub-exports-int global-int global-null global-g-map tags-int tags-null tags-t1-str tags-t1-false imported-int imported-null x-null sub-enabled-null",
 }
 
 // ---------------------------------------------------------------------------
@@ -1053,6 +1053,63 @@ func writeTree(dir string, fs fileset) error {
 	}
 	return nil
 }
+
+// treeCache keeps a chart directory on disk in step with the case at hand by
+// rewriting only the files that differ from what the previous case left there
+// (a case deviates one to three files out of fifteen).
+type treeCache struct {
+	dir   string
+	state map[string]string // file name -> content currently on disk
+}
+
+func (t *treeCache) sync(fs fileset) error {
+	if t.state == nil {
+		os.RemoveAll(t.dir)
+		if err := writeTree(t.dir, fs); err != nil {
+			return err
+		}
+		t.state = map[string]string{}
+		for _, n := range fs.order {
+			if !strings.HasPrefix(n, "@") {
+				t.state[n] = string(fs.data[n])
+			}
+		}
+		return nil
+	}
+	want := map[string]bool{}
+	for _, n := range fs.order {
+		if strings.HasPrefix(n, "@") {
+			continue
+		}
+		want[n] = true
+		if cur, ok := t.state[n]; ok && cur == string(fs.data[n]) {
+			continue
+		}
+		p := filepath.Join(t.dir, filepath.FromSlash(n))
+		if err := os.MkdirAll(filepath.Dir(p), 0o755); err != nil {
+			return err
+		}
+		if err := os.WriteFile(p, fs.data[n], 0o644); err != nil {
+			return err
+		}
+		t.state[n] = string(fs.data[n])
+	}
+	for n := range t.state {
+		if !want[n] {
+			p := filepath.Join(t.dir, filepath.FromSlash(n))
+			if err := os.Remove(p); err != nil {
+				return err
+			}
+			delete(t.state, n)
+			// a directory left empty disappears too (as in a freshly written tree)
+			for d := filepath.Dir(p); d != t.dir && os.Remove(d) == nil; d = filepath.Dir(d) {
+			}
+		}
+	}
+	return nil
+}
+
+var chartTree *treeCache
 
 func tgz(prefix string, fs fileset) []byte {
 	var buf bytes.Buffer
@@ -1205,10 +1262,13 @@ func chartExec(e *env, fs fileset) []res {
 	}
 
 	// 3. directory: loader.Load + lint
-	dir := e.freshDir("chart")
-	cdir := filepath.Join(dir, "parent")
-	if err := writeTree(cdir, fs); err != nil {
-		e.c.NotExhaustive("cannot write chart tree: %v", err)
+	if chartTree == nil {
+		chartTree = &treeCache{dir: filepath.Join(e.scratch, "chart", "parent")}
+	}
+	cdir := chartTree.dir
+	if err := chartTree.sync(fs); err != nil {
+		chartTree.state = nil // start over with the next case
+		out = append(out, res{Stage: "write-tree", Kind: "harness", Detail: err.Error()})
 		return out
 	}
 	out = append(out, e.g.run("LoadDir", func() error {
